@@ -20,6 +20,7 @@ macro_rules! std_instance {
             use $krate as lz;
             mod lio {
                 pub use std::io::{Read, Write};
+                pub type Res<T> = std::io::Result<T>;
                 pub fn class(e: &std::io::Error) -> u8 {
                     use std::io::ErrorKind::*;
                     match e.kind() {
@@ -46,6 +47,7 @@ macro_rules! nostd_instance {
             use $krate as lz;
             mod lio {
                 pub use super::lz::{Read, Write};
+                pub type Res<T> = super::lz::Result<T>;
                 pub fn class(e: &super::lz::Error) -> u8 {
                     use super::lz::Error::*;
                     match e {
@@ -97,6 +99,8 @@ fn gen_case(prop: &str, scen: &str, seed: u64) -> Case {
             case.input = random_input(&mut r_in, len, case.opt.dict);
             case.set("pieces_seed", (r_ops.next_u64() >> 1) as i64);
             case.rbufs = random_rbufs(&mut r_ops);
+            // short reads / short writes through the instance's own Read/Write traits
+            case.set("io_step", *r_ops.pick(&[1i64 << 30, 1 << 30, 1 << 30, 1 << 30, 1 << 30, 1, 3, 7, 100, 4096]));
             if scen == "xcfg.encode" {
                 if r_f.pct(35) {
                     case.set("bias_k", r_in.range(1, len as u64 + 8) as i64);
